@@ -64,3 +64,58 @@ def cinstance(s):
 
 def cidlists(ll):
     return C.clist([C.clist(['(%s, %s)' % (C.cz(a), C.cz(b)) for a, b in row]) for row in ll])
+
+
+# ---- results ---------------------------------------------------------------------------
+
+import re as _re
+
+
+def canon_results(txt):
+    """Replace the environment dependent pieces (date header, three timings) by placeholders."""
+    txt = _re.sub(r'\A# Results for the run conducted on [^\n]*', '#HDR', txt)
+    txt = _re.sub(r'time_model_creation_seconds: [^\n]*', 'time_model_creation_seconds: T1', txt)
+    txt = _re.sub(r'time_solve_seconds: [^\n]*', 'time_solve_seconds: T2', txt)
+    txt = _re.sub(r'time_total_seconds: [^\n]*', 'time_total_seconds: T3', txt)
+    return txt
+
+
+class FakeVar:
+    def __init__(self, v):
+        self.varValue = v
+
+
+def results_with_values(text, na, twopl, info, vals, long, stab):
+    """Model.get_results on an imported instance whose decision variables carry the given values."""
+    import datetime
+    from matchingproblems.solver import fileIO
+    from matchingproblems.solver.enums import Output_type
+    with tmpfile(text) as path:
+        m = fileIO.import_model(path, inst_opts(na, twopl))
+    for row, vrow in zip(m.pairs, vals):
+        for p, v in zip(row, vrow):
+            p.lp_var = FakeVar(1.0 if v else 0.0)
+    t0 = datetime.datetime(2020, 1, 2, 3, 4, 5)
+    m.time_start = t0
+    m.time_after_model_creation = t0 + datetime.timedelta(seconds=1)
+    m.time_after_solve = t0 + datetime.timedelta(seconds=3)
+    m.info_string = info
+    m.pulp_status = 'Optimal'
+    m.time_limit = None
+    return canon_results(m.get_results(Output_type.LONG if long else Output_type.SHORT, stab))
+
+
+def matching_line(txt):
+    m = _re.search(r'^matching: ?(.*)$', txt, _re.M)
+    if not m:
+        return None
+    return [int(x) for x in m.group(1).split()]
+
+
+def solver_run(text, argv_extra, getters=('get_results',), time_limit=None):
+    """Solver(args).solve(); then the named getters. Returns list of canonicalised texts."""
+    from matchingproblems.solver.solver import Solver
+    with tmpfile(text) as path:
+        s = Solver(['-f', path] + list(argv_extra))
+        s.solve(msg=False, timeLimit=time_limit, threads=None, write=False)
+        return [canon_results(getattr(s, g)()) for g in getters]
